@@ -41,7 +41,7 @@ def _pole(ptype, v, form="iso", axes=None, u=None):
     return {"ptype": ptype, "form": form, "ax": ax, "v": [list(q) for q in (v or axes[0])], "u": [list(q) for q in u] if u else [[0, 1]] * 3}
 
 
-def _build(shape, cf, T, blocks, strip_dispersion=False, capture=True):
+def _build(shape, cf, T, blocks, strip_dispersion=False, capture=True, walls=None):
     """blocks: [{"lo","hi","eps","poles":[...]}]; returns (objects, arrays, config, accepted info)"""
     import logging
     import warnings
@@ -59,7 +59,7 @@ def _build(shape, cf, T, blocks, strip_dispersion=False, capture=True):
     config = fdtdx.SimulationConfig(time=(T + 0.25) * dt, grid=fdtdx.UniformGrid(spacing=res), backend="cpu", dtype=jnp.float64, courant_factor=cf, gradient_config=None)
     vol = fdtdx.SimulationVolume(partial_grid_shape=tuple(shape))
     objs, cons = [vol], []
-    bcfg = fdtdx.BoundaryConfig.from_uniform_bound(thickness=2, override_types={f: "periodic" for f in FACES})
+    bcfg = fdtdx.BoundaryConfig.from_uniform_bound(thickness=2, override_types={f: (walls or {}).get(f, "periodic") for f in FACES})
     bd, cl = fdtdx.boundary_objects_from_config(bcfg, vol)
     objs += list(bd.values())
     cons += cl
@@ -82,7 +82,10 @@ def _build(shape, cf, T, blocks, strip_dispersion=False, capture=True):
             try:
                 for k, b in enumerate(blocks):
                     poles = [] if strip_dispersion else [_mk_pole(p, dt) for p in b.get("poles", [])]
-                    mat = fdtdx.Material(permittivity=b["eps"], dispersion=DispersionModel(poles=tuple(poles)) if poles else None)
+                    sig, sigm = b.get("sigma", 0.0), b.get("sigma_m", 0.0)
+                    mat = fdtdx.Material(permittivity=b["eps"], dispersion=DispersionModel(poles=tuple(poles)) if poles else None,
+                                         electric_conductivity=tuple(sig) if isinstance(sig, list) else sig,
+                                         magnetic_conductivity=tuple(sigm) if isinstance(sigm, list) else sigm)
                     o = fdtdx.UniformMaterialObject(name=f"blk{k}", partial_grid_shape=tuple(h_ - l_ for l_, h_ in zip(b["lo"], b["hi"])), material=mat)
                     cons.append(o.set_grid_coordinates(axes=(0, 1, 2), sides=("-", "-", "-"), coordinates=tuple(b["lo"])))
                     objs.append(o)
@@ -182,6 +185,13 @@ def _observe_rec(case):
 # ------------------------------------------------------------------ exact part: ZeroPoles product
 OR_A = _pole("lorentz", (R(1, 2), R(1, 10), R(2)), "oriented", u=[R(3, 5), R(4, 5), R(0)])
 ZERO_SETS = {"iso": [LOR_A, DRU_A], "axes": [LOR_AX], "ccpr": [CCP_A], "oriented": [OR_A]}
+# what the ZERO-coefficient region contains besides vacuum: a dielectric block, optionally conductive (electric: isotropic /
+# per-axis, magnetic), optionally PEC / PMC walls on the x faces.  update_E's dispersive branches carry their own copy of
+# the conductive loss factor, so a conductive cell with all-zero pole coefficients is where they can go out of step.
+ZERO_ENVS = {"plain": {}, "sigma": {"sigma": 3e4}, "sigma_axes": {"sigma": [3e4, 0.0, 6e4]}, "sigma_m": {"sigma_m": 1e9},
+             "sigma+walls": {"sigma": 3e4, "sigma_m": 5e8, "walls": {"min_x": "pec", "max_x": "pmc"}}}
+ZERO_QUICK = [("iso", "plain"), ("axes", "plain"), ("ccpr", "plain"), ("oriented", "plain"), ("iso", "sigma"), ("axes", "sigma_axes"),
+              ("iso", "sigma_m"), ("iso", "sigma+walls"), ("ccpr", "sigma"), ("oriented", "sigma"), ("axes", "sigma+walls")]
 
 
 def _observe_zero(case):
@@ -190,10 +200,11 @@ def _observe_zero(case):
 
     T = case["T"]
     shape = [6, 4, 4]
-    blocks = [{"lo": [0, 0, 0], "hi": [2, 4, 4], "eps": 2.25, "poles": []},
+    env = ZERO_ENVS[case.get("env", "plain")]
+    blocks = [{"lo": [0, 0, 0], "hi": [2, 4, 4], "eps": 2.25, "poles": [], "sigma": env.get("sigma", 0.0), "sigma_m": env.get("sigma_m", 0.0)},
               {"lo": [3, 0, 0], "hi": [5, 4, 4], "eps": case["eps"], "poles": case["poles"]}]
-    outA, _, raisedA = _build(shape, 0.5, T, blocks, capture=False)
-    outB, _, raisedB = _build(shape, 0.5, T, blocks, strip_dispersion=True, capture=False)
+    outA, _, raisedA = _build(shape, 0.5, T, blocks, capture=False, walls=env.get("walls"))
+    outB, _, raisedB = _build(shape, 0.5, T, blocks, strip_dispersion=True, capture=False, walls=env.get("walls"))
     if outA is None or outB is None:
         raise RuntimeError("zero scene rejected: " + raisedA + raisedB)
     objA, A, cfgA = outA
@@ -213,6 +224,17 @@ def _observe_zero(case):
     zero_cell = np.ones(shape, dtype=bool)
     for c in cs:
         zero_cell &= np.all(c == 0.0, axis=(0, 1))
+    def diag3(x):
+        x = np.asarray(x)
+        return x[[0, 4, 8]] if x.shape[0] == 9 else np.broadcast_to(x, (3, *x.shape[1:]))
+
+    sigA, sigB = A.electric_conductivity, B.electric_conductivity
+    for xa, xb in ((sigA, sigB), (A.magnetic_conductivity, B.magnetic_conductivity)):
+        if (xa is None) != (xb is None) or (xa is not None and not np.array_equal(diag3(xa), diag3(xb))):
+            raise RuntimeError("zero scene: twin scenes differ in conductivity")
+    lossy = sigA is not None and bool(np.any(diag3(sigA)[:, zero_cell] != 0.0))
+    if ("sigma" in env) != lossy:
+        raise RuntimeError("zero scene: conductive cells are not where the scene description puts them")
     # forward = E update, then H update from the NEW E: H of a zero-coefficient cell may only be compared when the
     # neighbouring cells its curl stencil reads are zero-coefficient cells too
     zero_H = zero_cell.copy()
@@ -236,7 +258,7 @@ def _observe_zero(case):
         events.append({"n": n, "diff": int(min(10**9, math.ceil(d / M * 1e15))) if finite and M > 0 else 10**9,
                        "bit": bool(np.array_equal(EA[:, zero_cell], EB[:, zero_cell])), "pzero": bool(np.all(Pc[:, :, zero_cell] == 0.0))})
     return {"id": case["id"], "kind": "zero", "events": events, "tol": 100, "nzero": int(zero_cell.sum()), "nzero_h": int(zero_H.sum()), "ndisp": int((~zero_cell).sum()),
-            "finite": bool(finite), "active": bool(active), "set": case["set"]}
+            "finite": bool(finite), "active": bool(active), "set": case["set"], "env": case.get("env", "plain"), "lossy": bool(lossy)}
 
 
 # ------------------------------------------------------------------ trace-monitor part: boundedness
@@ -384,10 +406,12 @@ def _exact_cases(ctx, rng):
                 n += 1
                 yield {"id": f"rec{n}-{name}{'-pad' if second else ''}", "kind": "rec", "set": name, "poles": poles, "second": second, "eps": eps,
                        "T": 8 if ctx.quick else 16, "seed": rng.randint(1, 10**6)}
-    for name, poles in ZERO_SETS.items():
+    combos = ZERO_QUICK if ctx.quick else [(a, b) for a in ZERO_SETS for b in ZERO_ENVS]
+    for name, env in combos:
         for eps in ((2.0,) if ctx.quick else (1.0, 2.0, 4.0)):
             n += 1
-            yield {"id": f"zero{n}-{name}", "kind": "zero", "set": name, "poles": poles, "eps": eps, "T": 6 if ctx.quick else 14, "seed": rng.randint(1, 10**6)}
+            yield {"id": f"zero{n}-{name}-{env}", "kind": "zero", "set": name, "env": env, "poles": ZERO_SETS[name], "eps": eps,
+                   "T": 6 if ctx.quick else 14, "seed": rng.randint(1, 10**6)}
 
 
 def _bounded_cases(ctx, rng):
@@ -404,9 +428,10 @@ def run(ctx):
     from lib.worker import pmap
 
     if os.environ.get("VERIF_SKIP_MC") != "1":
-        ctx.mc("Ade", "MC_Ade_q.cfg" if ctx.quick else "MC_Ade_t.cfg", workers=4, label="one cell, 2 pole slots (none / Lorentz / Drude / CCPR with c4), every drive sequence of length <= MaxT, inv_eps in {1, 1/2}")
+        ctx.mc("Ade", "MC_Ade_q.cfg" if ctx.quick else "MC_Ade_t.cfg", workers=4, label="one cell, 2 pole slots (none / Lorentz / Drude / CCPR with c4), every drive sequence of length <= MaxT, inv_eps in {1, 1/2}, loss factor in {0, 1/3(, 2)}")
         ctx.mc_negative("Ade", "MC_Ade_neg.cfg", workers=2)     # c3 multiplies E^{n+1}
         ctx.mc_negative("Ade", "MC_Ade_neg2.cfg", workers=2)    # P_prev not advanced
+        ctx.mc_negative("Ade", "MC_Ade_neg3.cfg", workers=2)    # implicit loss divisor dropped in the dispersive branch
         ctx.mc_negative("Disp", "MC_Disp_neg4.cfg", workers=2)  # acceptance rule: axis_active with `and` lets omega_0*dt >= 2 through
     else:
         ctx.notes.append("model checking of Ade.tla skipped (VERIF_SKIP_MC=1)")
